@@ -306,7 +306,7 @@ fn layer_two(ctx: &Ctx, totals: &mut LoomTotals) {
     games.extend(collision_games());
     let (budgets, targets): (&[u64], Vec<usize>) = if ctx.thorough() { (&[1, 2, 3], (2..=8).collect()) } else { (&[1, 2], (2..=6).collect()) };
     let lb = if ctx.thorough() {
-        LoomBounds { pb3: Some(3), pb4: Some(2), max_permutations: 400_000, max_seconds: 300 }
+        LoomBounds { pb3: Some(3), pb4: Some(2), max_permutations: 200_000, max_seconds: 120 }
     } else {
         LoomBounds { pb3: Some(2), pb4: Some(1), max_permutations: 50_000, max_seconds: 40 }
     };
@@ -323,8 +323,9 @@ fn layer_two(ctx: &Ctx, totals: &mut LoomTotals) {
         };
         for spec in &specs {
             for &iters in budgets {
-                // the universe part: vanilla at every budget, other presets at the longest only
-                if gi < small && *spec != ParamSpec::Preset(0) && iters != *budgets.last().unwrap() {
+                // the universe part: vanilla at budgets <= 2, other presets at budget 2 only; the
+                // longest budget is for the collision games
+                if gi < small && (iters > 2 || (*spec != ParamSpec::Preset(0) && iters != 2)) {
                     continue;
                 }
                 let cfg = Config { method: RefMethod::Full, spec: *spec, iters, max_reg: 0.0, script: BTreeMap::new(), fallback: Fallback::First };
